@@ -66,6 +66,25 @@ Theorem C18_plain_snapshot_runs_as_its_source_says :
 Proof. exact plain_snapshot_runs_as_its_source_says. Qed.
 Print Assumptions C18_plain_snapshot_runs_as_its_source_says.
 
+(* the whole chain for plain lights, in the models: for every population of plain lights with captured raw
+   values in range, replayed against any population that still has lights of those names (in any state,
+   possibly with more lights): the reference semantics of the generated tree is exactly the replay commands,
+   and so is what the compiled script does on the machine model -- and those commands restore the
+   captured state (C18_replay_restores) *)
+Theorem C18_plain_snapshot_semantics :
+  forall (p : population) (w : world) (fuel : nat),
+    Forall (good_plain (map l_name w)) p -> (6 * length p + 6 <= fuel)%nat ->
+    run_src fuel (snapshot_ast p) w = SFinished (replay_events p ++ [EvFlush]).
+Proof. exact plain_snapshot_semantics. Qed.
+Print Assumptions C18_plain_snapshot_semantics.
+
+Theorem C18_plain_snapshot_on_the_machine :
+  forall (p : population) (w : world),
+    plain_only p = true -> Forall (good_plain (map l_name w)) p ->
+    exists k, run_program k (compile (snapshot_ast p)) w = Finished (replay_events p ++ [EvFlush]).
+Proof. exact plain_snapshot_on_the_machine. Qed.
+Print Assumptions C18_plain_snapshot_on_the_machine.
+
 (* the hypotheses are satisfiable and the conclusion is about a real state *)
 Example C18_nonvacuous :
   let p := [mkDevice "a b" (DPlain [1; 2; 3; 4] true); mkDevice "m" (DMatrix 1 2 [[5; 6; 7; 8]; [9; 10; 11; 12]]); mkDevice "z" (DMulti [[1; 1; 1; 1]; [2; 2; 2; 2]])] in
